@@ -114,6 +114,14 @@ def prepare(ck, prop, spec, scratch, tier):
         ck.log(outp[-8000:])
         raise ck.Internal("harness build failed for " + prop)
     spec["bin"] = out
+    if spec.get("race_twin"):
+        rout = scratch.path("bin-" + spec["engine"] + "-race")
+        rc, outp = ck.go_build(scratch, ov, ZZ + "/" + spec["engine"], rout, race=True)
+        if rc != 0:
+            ck.log(outp[-6000:])
+            raise ck.Internal("race build of the harness failed for " + prop)
+        spec.setdefault("env", {})
+        spec["env"]["VERIF_SCHED_RACE_BIN"] = rout
     return spec
 
 
